@@ -534,4 +534,4 @@ def r07_15(ctx):
 
 
 def rules():
-    return [("R07.15", r07_15, 2), ("R07.14", r07_14, 1), ("R07.13", r07_13, 1), ("R07.12", r07_12, 3), ("R07.11", r07_11, 1), ("R07.10", r07_10, 6), ("R07.9", r07_9, 6), ("R07.1", r07_1, 13), ("R07.6", r07_6, 8), ("R07.2", r07_2, 3), ("R07.3", r07_3, 4), ("R07.5", r07_5, 3), ("R07.7", r07_7, 4), ("R07.8", r07_8, 2)]
+    return [("R07.15", r07_15, 13), ("R07.14", r07_14, 1), ("R07.13", r07_13, 1), ("R07.12", r07_12, 3), ("R07.11", r07_11, 1), ("R07.10", r07_10, 6), ("R07.9", r07_9, 6), ("R07.1", r07_1, 13), ("R07.6", r07_6, 8), ("R07.2", r07_2, 3), ("R07.3", r07_3, 4), ("R07.5", r07_5, 3), ("R07.7", r07_7, 4), ("R07.8", r07_8, 2)]
